@@ -85,6 +85,34 @@ def knownV : Option (List Nat) → Option Nat
 def C15St.inBounds (ms : C15St) (lo add v : Nat) : Bool :=
   !(ms.incOnly && ms.m != 1) || (ms.base + lo + add ≤ v && v ≤ ms.base + ms.incInv)
 
+/-- is `r` an acceptable result of operation `o` (values possibly held: `seen`; increments finished at
+its invocation: `lo`)? -/
+def okResOf (ms : C15St) (o : Op) (seen : Option (List Nat)) (lo r : Nat) : Bool :=
+  match o with
+  | .get => mayBe seen (· == r) && ms.inBounds lo 0 r
+  | .set _ => true
+  | .swap f => mayBe seen (fun v => f.apply v == r) &&
+      (match f with
+       | .inc => ms.inBounds lo 1 r
+       | .nilcb => ms.inBounds lo 0 r
+       | _ => true)
+
+/-- monitor state after operation `t` (entry `.op o seen lo clean true`) returned `r` -/
+def retOpMs (ms : C15St) (t : Nat) (o : Op) (seen : Option (List Nat)) (lo : Nat) (clean : Bool)
+    (r : Nat) : C15St :=
+  if o.isWriter then
+    { ms with
+      calls := ms.calls.set t (.op o seen lo clean false)
+      nwr := ms.nwr - 1
+      incDone := ms.incDone + (if o.isInc then 1 else 0)
+      poss := match ms.solo with
+        | some (d, saved) => if d = t then saved.map (fun l => l.map (o.newVal ms.m)) else none
+        | none => none
+      solo := none }
+  else if clean && o == .get then
+    { ms with calls := ms.calls.set t (.op o seen lo clean false), poss := some [r] }
+  else { ms with calls := ms.calls.set t (.op o seen lo clean false) }
+
 def monC15 : ObsMonitor Obs C15St where
   init := {}
   step := fun ms o =>
@@ -105,28 +133,7 @@ def monC15 : ObsMonitor Obs C15St where
     | .retOp t r =>
       match ms.calls[t]? with
       | some (.op o seen lo clean true) =>
-        let okRes : Bool := match o with
-          | .get => mayBe seen (· == r) && ms.inBounds lo 0 r
-          | .set _ => true
-          | .swap f => mayBe seen (fun v => f.apply v == r) &&
-              (match f with
-               | .inc => ms.inBounds lo 1 r
-               | .nilcb => ms.inBounds lo 0 r
-               | _ => true)
-        if okRes then
-          let calls := ms.calls.set t (.op o seen lo clean false)
-          if o.isWriter then
-            some { ms with
-              calls := calls
-              nwr := ms.nwr - 1
-              incDone := ms.incDone + (if o.isInc then 1 else 0)
-              poss := match ms.solo with
-                | some (d, saved) => if d = t then saved.map (fun l => l.map (o.newVal ms.m)) else none
-                | none => none
-              solo := none }
-          else if clean && o == .get then some { ms with calls := calls, poss := some [r] }
-          else some { ms with calls := calls }
-        else none
+        if okResOf ms o seen lo r then some (retOpMs ms t o seen lo clean r) else none
       | _ => some ms
     | .invWait _ k _ => some { ms with calls := ms.calls ++ [.wait k ms.poss ms.incDone] }
     | .retWait t res =>
